@@ -363,6 +363,9 @@ func Kind(err error) string {
 
 // LogName returns a login name (no path separators).
 func LogName(r *rand.Rand) string {
+	if r.Intn(9) == 0 { // qualified names, as a directory service hands them out (one name all the same)
+		return []string{gen.Ident(r, 5) + "@corp.example.com", "root@" + gen.Ident(r, 4), gen.Ident(r, 3) + "@" + gen.Ident(r, 2) + "@x", gen.Ident(r, 4) + "+" + gen.Ident(r, 2) + "%h", gen.Ident(r, 3) + ":" + gen.Ident(r, 3) + ",wheel"}[r.Intn(5)]
+	}
 	switch r.Intn(8) {
 	case 5: // upper and mixed case (login names are case-sensitive)
 		return "JSmith" + gen.Ident(r, 2)
